@@ -387,4 +387,36 @@ def c20(ctx):
             if bad:
                 ctx.violation({"kind": "large_" + bad[0], "family": "large"}, {"large": True, "L": L, "init": kind, "what": list(bad)})
     ctx.count("large_flexible_array_cases", n)
-    return n
+    # zero-fill of large top-level arrays (audit gap 6): byte sizes on both sides of the tcache limit (1032) and of
+    # the mmap threshold (128 KiB) of glibc malloc and 1 MiB, for char[], int[] and struct[] created by ffi.new and
+    # by the default ffi.new_allocator(), each time after dirty (0xFF) blocks of the same size were freed
+    ffi.cdef("struct lN { char c; int i; };")
+    dflt = ffi.new_allocator()
+    m = 0
+    for nbytes in (1032, 131056, 131072, 131088, 1 << 20):
+        for tname, isz in (("char[]", 1), ("int[]", 4), ("struct lN[]", 8)):
+            for aname, alloc in (("new", ffi.new), ("new_allocator", dflt)):
+                m += 1
+                cnt = nbytes // isz
+                blocks = []
+                for _ in range(4):
+                    b = ffi.new("char[]", nbytes)
+                    ffi.buffer(b)[:] = b"\xff" * nbytes
+                    blocks.append(b)
+                del blocks, b
+                bad = None
+                try:
+                    p = alloc(tname, cnt)
+                    raw = bytes(ffi.buffer(p))
+                    if len(raw) != cnt * isz or len(p) != cnt:
+                        bad = ("length", len(raw), cnt * isz)
+                    elif raw.count(0) != len(raw):
+                        bad = ("not_zero", len(raw) - raw.count(0), None)
+                    del p
+                except Exception as e:
+                    bad = ("raises", "%s: %s" % (type(e).__name__, e), None)
+                if bad:
+                    ctx.violation({"kind": "large_array_" + bad[0], "family": "large", "allocator": aname},
+                                  {"large": True, "bytes": nbytes, "type": tname, "allocator": aname, "what": list(bad)})
+    ctx.count("large_array_zero_fill_cases", m)
+    return n + m
